@@ -313,9 +313,33 @@ def run_worker(script, args, inp=None, timeout=3600, env=None):
     e.setdefault("OPENBLAS_NUM_THREADS", "1")
     if env:
         e.update(env)
-    p = subprocess.run([PY, os.path.join(ROOT, "harness", script)] + [str(a) for a in args], env=e, input=inp,
+    cmd = [PY, os.path.join(ROOT, "harness", script)]
+    cov = os.environ.get("VERIF_COVERAGE_DIR")
+    if cov:
+        # diagnostic only (tools/impl_coverage.sh): which lines/branches of autograd the spec-driven replays execute
+        os.makedirs(cov, exist_ok=True)
+        cmd = [PY, "-m", "coverage", "run", "--branch", "--parallel-mode", "--source=" + os.path.join(REPO, "autograd"),
+               "--data-file=" + os.path.join(cov, ".coverage"), os.path.join(ROOT, "harness", script)]
+    p = subprocess.run(cmd + [str(a) for a in args], env=e, input=inp,
                        stdout=subprocess.PIPE, stderr=subprocess.PIPE, text=True, timeout=timeout, cwd=scratch())
     return p
+
+
+UNNAMED = ("rejected by the TLA+ judge; the Python mirror (which only names the failing clause) did not reproduce the rejection - "
+           "see the observation in the replay file")
+MIRROR_NOTES = []
+
+
+def reconcile(what, tlc_accepts, mirror_accepts):
+    """TLC is the judge, the Python mirror only names the clause.  TLC rejects / mirror accepts: the observation IS a violation (reason
+    UNNAMED) and the disagreement is noted; TLC accepts / mirror rejects: the mirror claims more than the specification - a machinery
+    failure (exit 2), because following either side silently would be wrong."""
+    if tlc_accepts and not mirror_accepts:
+        raise MachineryError("TLC accepted %s but the Python mirror rejects it" % (what,))
+    if not tlc_accepts and mirror_accepts:
+        MIRROR_NOTES.append(str(what)[:300])
+        print("NOTE mirror could not name the clause TLC rejected for %s" % (str(what)[:200],))
+    return tlc_accepts
 
 
 def chunks(xs, n):
